@@ -366,6 +366,10 @@ class StreamReader:
                 await waiter
         finally:
             self._waiter = None
+        # A reader woken by data or a chunk boundary may resume only after
+        # set_exception() was called: the error must not be lost.
+        if self._exception is not None:
+            raise self._exception
 
     async def _fire_chunk_received(self, chunk: bytes) -> None:
         cb = self._on_chunk_received
